@@ -19,7 +19,8 @@ RULE = ("Every public entry point is called with caller-owned arrays in drawn la
         "(including the whole underlying buffer of a view), dtype, shape, strides and flags are identical before and after, "
         "lists keep length and element identity, and the read-only call returns bitwise the same result as the writable one. "
         "Non-trivial = at least one array argument is read-only, non-C-contiguous, or the call failed; distinct by SHA-1 of the case."
-        ' Failing calls include array arguments of undescribed shapes ((T,1)/(1,T)/over-long cost arrays, flattened/3-D weight arrays): contents, shape and strides must survive.')
+        ' Failing calls include array arguments of undescribed shapes ((T,1)/(1,T)/over-long cost arrays, flattened/3-D weight arrays): contents, shape and strides must survive.'
+        ' Tables with NaN/inf entries; model matrices of dimension 2..6, read-only, Fortran-ordered.')
 ASSUMPTIONS = ["fault injection substitutes the public optimiser entry point under a synchronous stand-in pool (so the fault fires in-process)"]
 
 
@@ -290,7 +291,10 @@ def kernel_case(draw):
             "c_layout": draw(st.sampled_from(["C", "F", "strided"])), "c_readonly": draw(st.booleans()),
             "beta_vector": draw(st.booleans()), "b_layout": draw(st.sampled_from(["C", "strided"])), "b_readonly": draw(st.booleans()),
             "via": draw(st.sampled_from(["kernel", "phase"])), "floor": draw(st.sampled_from([0, 0, 0.3, 2.0])),
-            "m_layout": draw(st.sampled_from(["C", "F"]))}
+            "m_layout": draw(st.sampled_from(["C", "F"])), "m_readonly": draw(st.booleans()),
+            # a caller-owned table with NaN / +inf / -inf entries (a masked-out cluster, an overflowed likelihood): no optimum is
+            # claimed for it here, only that the table is still the caller's afterwards
+            "nonfinite": draw(st.sampled_from([None, None, None, "nan", "+inf", "-inf", "mixed"]))}
 
 
 def execute_kernel(case, t):
@@ -299,6 +303,10 @@ def execute_kernel(case, t):
     T, K = case["T"], case["K"]
     cost0 = rng.integers(-400, 400, size=(T, K)) / 8.0
     beta0 = rng.integers(0, 60, size=T) / 8.0 if case["beta_vector"] else 2.5
+    if case.get("nonfinite") and case["via"] == "kernel":
+        pool = {"nan": [np.nan], "+inf": [np.inf], "-inf": [-np.inf], "mixed": [np.nan, np.inf, -np.inf]}[case["nonfinite"]]
+        for _ in range(1 + T * K // 6):
+            cost0[int(rng.integers(0, T)), int(rng.integers(0, K))] = pool[int(rng.integers(0, len(pool)))]
 
     def call(c_ro, b_ro):
         snaps = []
@@ -316,7 +324,7 @@ def execute_kernel(case, t):
                 return None, e, snaps
         # labelling phase: data array + model whose arguments carry beta
         from fast_ticc.containers import arguments, model_state
-        n = 2
+        n = 2 + case["seed"] % 5
         data = layout(rng.normal(size=(T, n)) if False else np.random.default_rng(case["seed"] + 1).normal(size=(T, n)), case["c_layout"], c_ro)
         snaps.append(ArgSnap("data", data))
         args = arguments.UserArguments(sparsity_weight=0.1, iteration_limit=1, label_switching_cost=beta, min_cluster_size=2,
@@ -328,7 +336,7 @@ def execute_kernel(case, t):
         for k in range(K):
             B = r2.normal(size=(n, n)) * 0.4
             # the caller's model: matrices with entries on both sides of any floor, in the caller's layout
-            ms.clusters[k].train_inverse = layout(B @ B.T + np.eye(n), case.get("m_layout", "C"), False)
+            ms.clusters[k].train_inverse = layout(B @ B.T + np.eye(n), case.get("m_layout", "C"), bool(case.get("m_readonly")) and c_ro)
             ms.clusters[k].stacked_data_mean = r2.normal(size=n)
             snaps.append(ArgSnap(f"model cluster {k} MRF", ms.clusters[k].train_inverse))
             snaps.append(ArgSnap(f"model cluster {k} mean", ms.clusters[k].stacked_data_mean))
@@ -344,8 +352,11 @@ def execute_kernel(case, t):
         raise Violation(f"labelling {case['via']} raised {type(exc).__name__}: {str(exc)[:200]} (layout {case['c_layout']}, "
                         f"read-only table={case['c_readonly']}, read-only beta={case['b_readonly']})")
     ref, exc2, _ = call(False, False)
-    if exc2 is not None or ref != got:
+    same = exc2 is None and ref[0] == got[0] and (ref[1] == got[1] or (ref[1] != ref[1] and got[1] != got[1]))
+    if not same:
         raise Violation("read-only inputs give a different labelling than writable inputs")
+    if case.get("nonfinite") and case["via"] == "kernel":
+        t.cls(f"table_with_{case['nonfinite']}_entries")
     t.cls(f"via_{case['via']}")
     if case["c_readonly"] or case["b_readonly"] or case["c_layout"] != "C":
         t.mark_nontrivial({"via": case["via"], "layout": case["c_layout"], "readonly": [case["c_readonly"], case["b_readonly"]]})
